@@ -3418,7 +3418,7 @@ func (vm *Thread) opLessThanEqualFloat() {
 	right := vm.popGet()
 	left := vm.peek()
 
-	l := left.AsSmallInt()
+	l := left.AsFloat()
 	result, _ := l.LessThanEqualVal(right)
 	vm.replace(result)
 }
@@ -3442,7 +3442,7 @@ func (vm *Thread) opLessThanFloat() {
 	right := vm.popGet()
 	left := vm.peek()
 
-	l := left.AsSmallInt()
+	l := left.AsFloat()
 	result, _ := l.LessThanVal(right)
 	vm.replace(result)
 }
@@ -3762,7 +3762,7 @@ func (vm *Thread) opSubtractInt() {
 func (vm *Thread) opSubtractFloat() {
 	right := vm.popGet()
 	left := vm.peek()
-	l := left.AsSmallInt()
+	l := left.AsFloat()
 	result, _ := l.SubtractVal(right)
 	vm.replace(result)
 }
